@@ -69,6 +69,7 @@ def plan_run(run_seed, prop):
         "bounding": tp.weighted([("native", 6), ("caller", 1)]),
         "rerun": tp.chance(0.35),
         "gateset_style": tp.choice(["direct", "direct", "copied"]),
+        "gateset_variant": tp.randrange(4),
         "disturb": tp.weighted([(None, 5), ("interrupt", 2), ("unitary_raises", 1.5), ("nested_run", 1.5)]),
         "disturb_at": tp.random(),
         "scan": tp.chance(0.4),
@@ -304,6 +305,7 @@ def execute(plan):
     from jaqalpaq.core import GateDefinition
 
     st = Streams(plan["run_seed"], recorded=plan.get("tapes"))
+    GS.VARIANT = plan.get("gateset_variant", 0)
     viol = V()
     probes = {}
     log = []
@@ -792,6 +794,8 @@ def candidates(plan):
         yield variant(scan=False)
     if plan.get("disturb"):
         yield variant(disturb=None)
+    if plan.get("gateset_variant"):
+        yield variant(gateset_variant=0)
     if plan.get("gateset_style", "direct") != "direct":
         yield variant(gateset_style="direct")
     for k in list(plan["overrides"] or {}):
